@@ -1,6 +1,7 @@
 (* Whole-history statements: the per-operation lemmas folded over arbitrary operation sequences. *)
 From Coq Require Import Sorted Permutation.
-From RV Require Import Base.Bytes Model.Heap Model.PPQ Model.ZipTree Proofs.C19_Heap Proofs.C19_PPQ Proofs.C19_ZipTree.
+From RV Require Import Base.Bytes Model.Heap Model.PPQ Model.ZipTree Model.DsSet Model.SortedMap.
+From RV Require Import Proofs.C19_Heap Proofs.C19_PPQ Proofs.C19_ZipTree Proofs.C19_DsSet Proofs.C19_SortedMap.
 Open Scope nat_scope.
 
 (* ---- heap ---- *)
@@ -116,3 +117,64 @@ Proof. intros puts k v rank. destruct (zip_history puts) as [Hb Hi]. rewrite put
 Theorem zip_history_sorted : forall puts,
   StronglySorted (fun a b => bcmp (fst a) (fst b) = Lt) (fold_left rput puts []).
 Proof. intros puts. destruct (zip_history puts) as [Hb Hi]. rewrite <- Hi. apply inorder_sorted. exact Hb. Qed.
+
+(* ---- insertion-ordered set: any sequence of Add / Without (Added = Add on a clone) ---- *)
+Inductive sop := SoAdd (vs : list bytes) | SoWithout (vs : list bytes).
+Definition sstep (s : set) (o : sop) : set := match o with SoAdd vs => set_add vs s | SoWithout vs => set_without vs s end.
+Definition sref_step (r : list bytes) (o : sop) : list bytes := match o with SoAdd vs => ref_add r vs | SoWithout vs => ref_without r vs end.
+
+Theorem set_history : forall ops,
+  let s := fold_left sstep ops set_empty in
+  let r := fold_left sref_step ops [] in
+  set_slice s = r /\ NoDup r /\ (forall v, set_has v s = true <-> In v r) /\ set_size s = length r.
+Proof.
+  intros ops. assert (H : forall s r, set_inv s -> set_slice s = r ->
+     set_inv (fold_left sstep ops s) /\ set_slice (fold_left sstep ops s) = fold_left sref_step ops r).
+  { induction ops as [|o ops IH]; intros s r Hi Hr; [split; assumption|]. cbn [fold_left]. destruct o as [vs|vs]; cbn [sstep sref_step].
+    - destruct (set_add_spec vs s Hi) as [H1 H2]. apply IH; [exact H1|rewrite H2, Hr; reflexivity].
+    - destruct (set_without_spec vs s Hi) as [H1 H2]. apply IH; [exact H1|rewrite H2, Hr; reflexivity]. }
+  destruct (H set_empty [] set_empty_inv eq_refl) as [Hi Hs]. cbv zeta. rewrite <- Hs.
+  split; [reflexivity|]. split; [exact (proj1 Hi)|]. split; [intros v; apply set_has_spec; exact Hi|apply set_size_spec].
+Qed.
+
+(* ---- sorted map: any sequence of Set / Delete / ordered reads (which sort the key slice in place) ---- *)
+Inductive mop := MoSet (k : bytes) (v : N) | MoDelete (k : bytes) | MoRead.
+Definition mstep (s : smap) (o : mop) : smap :=
+  match o with MoSet k v => fst (smap_set k v s) | MoDelete k => fst (smap_delete k s) | MoRead => fst (smap_all s) end.
+Definition mref_step (r : list (bytes * N)) (o : mop) : list (bytes * N) :=
+  match o with MoSet k v => rm_put k v r | MoDelete k => rm_del k r | MoRead => r end.
+
+Lemma smap_history_inv : forall ops s, smap_inv s ->
+  smap_inv (fold_left mstep ops s) /\ smap_ref (fold_left mstep ops s) = fold_left mref_step ops (smap_ref s).
+Proof.
+  induction ops as [|o ops IH]; intros s Hi; [split; [exact Hi|reflexivity]|]. cbn [fold_left].
+  destruct o as [k v|k|]; cbn [mstep mref_step].
+  - pose proof (smap_set_spec k v s Hi) as H. destruct (smap_set k v s) as [s' nw]. destruct H as [H1 [H2 _]]. cbn [fst].
+    rewrite <- H2. apply IH. exact H1.
+  - pose proof (smap_delete_spec k s Hi) as H. destruct (smap_delete k s) as [s' rm]. destruct H as [H1 [H2 _]]. cbn [fst].
+    rewrite <- H2. apply IH. exact H1.
+  - pose proof (smap_all_spec s Hi) as H. destruct (smap_all s) as [s' kvs]. destruct H as [H1 [H2 _]]. cbn [fst].
+    rewrite <- H2. apply IH. exact H1.
+Qed.
+
+Theorem smap_history : forall ops,
+  let s := fold_left mstep ops smap_empty in
+  let r := fold_left mref_step ops [] in
+  snd (smap_all s) = r /\ snd (smap_keys s) = map fst r /\ snd (smap_values s) = map snd r /\
+  (forall k, smap_get k s = rm_get k r) /\ smap_size s = length r /\
+  StronglySorted (fun a b => bcmp (fst a) (fst b) = Lt) r /\
+  (forall k v, snd (smap_set k v s) = match rm_get k r with None => true | Some _ => false end) /\
+  (forall k, snd (smap_delete k s) = match rm_get k r with None => false | Some _ => true end).
+Proof.
+  intros ops. destruct (smap_history_inv ops smap_empty smap_empty_inv) as [Hi Hr]. rewrite smap_empty_ref in Hr.
+  cbv zeta. rewrite <- Hr. set (s := fold_left mstep ops smap_empty) in *.
+  split; [|split; [|split; [|split; [|split; [|split; [|split]]]]]].
+  - pose proof (smap_all_spec s Hi) as H. destruct (smap_all s) as [s' kvs]. destruct H as [_ [_ H]]. exact H.
+  - pose proof (smap_keys_spec s Hi) as H. destruct (smap_keys s) as [s' ks]. destruct H as [_ [_ H]]. exact H.
+  - pose proof (smap_values_spec s Hi) as H. destruct (smap_values s) as [s' vs]. destruct H as [_ [_ H]]. exact H.
+  - intros k. apply smap_get_spec. exact Hi.
+  - apply smap_size_spec. exact Hi.
+  - apply smap_ref_sorted. exact Hi.
+  - intros k v. pose proof (smap_set_spec k v s Hi) as H. destruct (smap_set k v s) as [s' nw]. destruct H as [_ [_ H]]. exact H.
+  - intros k. pose proof (smap_delete_spec k s Hi) as H. destruct (smap_delete k s) as [s' rm]. destruct H as [_ [_ H]]. exact H.
+Qed.
